@@ -557,6 +557,9 @@ func pointClass(h *history, fk string, pt int, idx []int) string {
 }
 
 func runC01(c *Ctx) {
+	// each change carries the table it was written to: table ids shared by, and re-announced for, several tables
+	// (same name in another database, names that differ in letter case only, ids at the edges of the id space)
+	defer runAttribution(c, "C01", c.N(7, 140))
 	c.R.Rule = "histories from the RBR grammar (every supported column type, NULL/absent patterns) x {checksum off, CRC32} x {rows v1, v2} x {table-id 4, 6 bytes} x GTID events on/off x start positions, through parseEvents; distinct = (cfg, #type families, has-NULL, has-absent, has-rotation, start class) with >= 2 transactions"
 	r := c.Rng
 	nh := c.N(30, 600)
